@@ -55,9 +55,11 @@ impl Flt for Bloom {
         "bloom"
     }
     fn insert(&mut self, k: u64) -> Result<bool, ()> {
+        crate::infra::beat();
         Filter::insert(self, &k).map_err(|_| ())
     }
     fn query(&self, k: u64) -> bool {
+        crate::infra::beat();
         Filter::query(self, &k)
     }
     fn len(&self) -> usize {
@@ -70,9 +72,11 @@ impl Flt for Bloom {
         Filter::clear(self)
     }
     fn union(&mut self, o: &Self) -> Result<(), ()> {
+        crate::infra::beat();
         Filter::union(self, o).map_err(|_| ())
     }
     fn delete(&mut self, _k: u64) -> Option<bool> {
+        crate::infra::beat();
         None
     }
     fn dump(&self) -> Value {
@@ -95,9 +99,11 @@ impl Flt for Cuckoo {
         "cuckoo"
     }
     fn insert(&mut self, k: u64) -> Result<bool, ()> {
+        crate::infra::beat();
         Filter::insert(self, &k).map_err(|_| ())
     }
     fn query(&self, k: u64) -> bool {
+        crate::infra::beat();
         Filter::query(self, &k)
     }
     fn len(&self) -> usize {
@@ -110,9 +116,11 @@ impl Flt for Cuckoo {
         Filter::clear(self)
     }
     fn union(&mut self, o: &Self) -> Result<(), ()> {
+        crate::infra::beat();
         Filter::union(self, o).map_err(|_| ())
     }
     fn delete(&mut self, k: u64) -> Option<bool> {
+        crate::infra::beat();
         Some(CuckooFilter::delete(self, &k))
     }
     fn dump(&self) -> Value {
@@ -137,9 +145,11 @@ impl Flt for Qf {
         "quotient"
     }
     fn insert(&mut self, k: u64) -> Result<bool, ()> {
+        crate::infra::beat();
         Filter::insert(self, &k).map_err(|_| ())
     }
     fn query(&self, k: u64) -> bool {
+        crate::infra::beat();
         Filter::query(self, &k)
     }
     fn len(&self) -> usize {
@@ -152,9 +162,11 @@ impl Flt for Qf {
         Filter::clear(self)
     }
     fn union(&mut self, o: &Self) -> Result<(), ()> {
+        crate::infra::beat();
         Filter::union(self, o).map_err(|_| ())
     }
     fn delete(&mut self, _k: u64) -> Option<bool> {
+        crate::infra::beat();
         None
     }
     fn dump(&self) -> Value {
@@ -186,9 +198,11 @@ impl Flt for HashSet<u64> {
         "hashset"
     }
     fn insert(&mut self, k: u64) -> Result<bool, ()> {
+        crate::infra::beat();
         <Self as Filter<u64>>::insert(self, &k).map_err(|_| ())
     }
     fn query(&self, k: u64) -> bool {
+        crate::infra::beat();
         <Self as Filter<u64>>::query(self, &k)
     }
     fn len(&self) -> usize {
@@ -201,9 +215,11 @@ impl Flt for HashSet<u64> {
         <Self as Filter<u64>>::clear(self)
     }
     fn union(&mut self, o: &Self) -> Result<(), ()> {
+        crate::infra::beat();
         <Self as Filter<u64>>::union(self, o).map_err(|_| ())
     }
     fn delete(&mut self, _k: u64) -> Option<bool> {
+        crate::infra::beat();
         None
     }
     fn dump(&self) -> Value {
@@ -229,9 +245,11 @@ macro_rules! str_flt {
                 $kind
             }
             fn insert(&mut self, k: u64) -> Result<bool, ()> {
+        crate::infra::beat();
                 Filter::insert(&mut self.0, skey(k).as_str()).map_err(|_| ())
             }
             fn query(&self, k: u64) -> bool {
+        crate::infra::beat();
                 Filter::query(&self.0, skey(k).as_str())
             }
             fn len(&self) -> usize {
@@ -244,9 +262,11 @@ macro_rules! str_flt {
                 Filter::clear(&mut self.0)
             }
             fn union(&mut self, o: &Self) -> Result<(), ()> {
+        crate::infra::beat();
                 Filter::union(&mut self.0, &o.0).map_err(|_| ())
             }
             fn delete(&mut self, k: u64) -> Option<bool> {
+        crate::infra::beat();
                 #[allow(clippy::redundant_closure_call)]
                 ($del)(&mut self.0, k)
             }
